@@ -17,6 +17,30 @@ import (
 	"verif/internal/vlib"
 )
 
+// nearestKeptTube returns the lowest diagonal (query minus target position) at
+// which a filter tube kept by the merger in self comparison starts. Tubes start
+// at tubeIndex*offset - Tlen (filter.addHit), i.e. at the diagonals congruent to
+// -Tlen modulo the tube offset, and Merger.MergeFilterHit drops those that start
+// at or below MaxError. Pure arithmetic on (Tlen, offset, MaxError).
+//
+// Measured on the unchanged tree (k=5 n=32 e=5 offset=37, random sequences of
+// 1 900-3 300 letters, 150-6 000 self comparisons per value): the whole sequence
+// is reported as aligned with itself in 31 % of the runs when this value is 6,
+// 2 % at 7, 0.4 % at 8, 0.02 % at 9 and in none of 6 000 at 10 - the DP's fixed
+// widening covers MaxIGap = 5 diagonals and every further diagonal costs the
+// path about a factor of ten. The known finding is therefore identified as
+// "nearest kept tube within 2 x MaxIGap of the main diagonal".
+func nearestKeptTube(tlen, offset, maxError int) int {
+	if offset <= 0 {
+		return 1 << 30
+	}
+	l := ((-tlen % offset) + offset) % offset
+	for l <= maxError {
+		l += offset
+	}
+	return l
+}
+
 func TestMain(m *testing.M) { vlib.Main(m, "C15"); os.Exit(0) }
 
 type palsCase struct {
@@ -37,7 +61,13 @@ type palsCase struct {
 	// reach the minimum length on both sequences)
 	NetDel int `json:"net_del,omitempty"`
 	// LowID: minimum identity below 0.85 (soundness only)
-	LowID bool   `json:"low_id,omitempty"`
+	LowID bool `json:"low_id,omitempty"`
+	// Family: the query carries a second, exact copy of the (mutated) repeat further along: a repeat
+	// family. Both query copies must be recovered against the one target copy (ordinary comparison only).
+	Family bool `json:"family,omitempty"`
+	// NRun > 0: a run of NRun letters N (an assembly gap) in the target, at least a repeat length away
+	// from the copy.
+	NRun  int    `json:"n_run,omitempty"`
 	SeedT uint64 `json:"seed_t"`
 	SeedQ uint64 `json:"seed_q"`
 	SeedM uint64 `json:"seed_m"` // mutation positions
@@ -94,8 +124,10 @@ type built struct {
 	// planted copy: target [t0,t0+L), query copy [q0,q0+lq) in the coordinates of the sequence handed to
 	// PALS for the strand on which it must be found
 	t0, tl, q0, ql int
+	q1, ql1        int // second query copy of a repeat family (ql1 == 0: none)
 	diffs          int
 	minID          float64
+	nruns          int // N runs actually placed
 }
 
 func (c palsCase) build() built {
@@ -120,6 +152,9 @@ func (c palsCase) build() built {
 	if c.Self && tlen < 8*L+20 {
 		tlen = 8*L + 20
 		qlen = tlen
+	}
+	if c.Family && !c.Self && qlen < 8*L+20 {
+		qlen = 8*L + 20
 	}
 	b.target = expand(c.SeedT, tlen)
 	place := func(n, pm int) int { return L + (n-3*L)*pm/1000 }
@@ -199,11 +234,36 @@ func (c palsCase) build() built {
 	if c.Reverse {
 		ins = revcomp(copyU)
 	}
+	q1 := -1
+	if c.Family {
+		// first copy in the first half, second in the second half
+		q0 = L + (qlen/2-3*L)*c.Q0Pct/1000
+		q1 = qlen/2 + L/2 + (qlen/2-3*L-5)*((c.Q0Pct*7+c.T0Pct)%1000)/1000
+		copy(b.query[q1:], ins)
+	}
 	copy(b.query[q0:], ins)
 	b.q0, b.ql = q0, len(ins)
+	if q1 >= 0 {
+		b.q1, b.ql1 = q1, len(ins)
+	}
+	if c.NRun > 0 {
+		// a run of N in the target, at least a repeat length away from the copy. (The query stays
+		// over A,C,G,T: the filter advances its tube recycling only on valid k-mers, so a run of N
+		// in the query shifts every later retirement - a behaviour outside what the statements of
+		// C14 and C15 quantify over, noted in DESIGN.md.)
+		if p := int(g.next() % uint64(tlen-c.NRun)); p+c.NRun+L <= b.t0 || p >= b.t0+L+L {
+			for i := 0; i < c.NRun; i++ {
+				b.target[p+i] = 'N'
+			}
+			b.nruns++
+		}
+	}
 	if c.Reverse {
 		// PALS reports complement-strand hits in the coordinates of the reverse-complemented query
 		b.q0 = qlen - q0 - len(ins)
+		if q1 >= 0 {
+			b.q1 = qlen - q1 - len(ins)
+		}
 	}
 	return b
 }
@@ -281,10 +341,12 @@ func check(c palsCase) *vlib.Failure {
 		}
 		if f := soundness(c, b, hits, b.target, query, comp, desc); f != nil {
 			f.Msg += fmt.Sprintf(" [filter k=%d n=%d e=%d offset=%d]", p.FilterParams.WordSize, p.FilterParams.MinMatch, p.FilterParams.MaxError, p.FilterParams.TubeOffset)
-			if f.Kind == "trivial-self-match" && p.FilterParams.MaxError < pals.MaxIGap {
-				// known finding KF-C15: the guard that drops near-diagonal filter hits in self comparison is
-				// MaxError wide, the banded DP widens each trapezoid by more than that
-				f.Kind = "trivial-self-match-when-max-error-below-band-padding"
+			if f.Kind == "trivial-self-match" && nearestKeptTube(len(b.target), p.FilterParams.TubeOffset, p.FilterParams.MaxError) <= 2*pals.MaxIGap {
+				// known finding KF-C15: in self comparison the merger drops the filter tubes that start
+				// within MaxError of the main diagonal; the banded DP widens a kept trapezoid by MaxIGap
+				// and its band then follows the best path, so a kept tube that starts close enough to
+				// the main diagonal is pulled onto it (see nearestKeptTube)
+				f.Kind = "trivial-self-match-from-kept-tube-within-dp-reach"
 			}
 			return f
 		}
@@ -306,13 +368,20 @@ func check(c palsCase) *vlib.Failure {
 				}
 				continue
 			}
+			found2 := b.ql1 == 0
 			for _, h := range hits {
 				if 10*overlap(h.Abpos, h.Aepos, b.t0, b.t0+b.tl) >= 6*b.tl && 10*overlap(h.Bbpos, h.Bepos, b.q0, b.q0+b.ql) >= 6*b.ql {
 					found = true
 				}
+				if b.ql1 > 0 && 10*overlap(h.Abpos, h.Aepos, b.t0, b.t0+b.tl) >= 6*b.tl && 10*overlap(h.Bbpos, h.Bepos, b.q1, b.q1+b.ql1) >= 6*b.ql1 {
+					found2 = true
+				}
 			}
 			if !found {
 				return vlib.Failf("repeat-not-found", "%s: no hit of Align(%v) overlaps 60%% of the planted copy in both sequences (k=%d; %d hits: %v)", desc, comp, p.FilterParams.WordSize, len(hits), clip(hits))
+			}
+			if !found2 {
+				return vlib.Failf("family-member-not-found", "%s: the query holds a second copy at q[%d,%d); no hit of Align(%v) pairs it with the target copy (k=%d; %d hits: %v)", desc, b.q1, b.q1+b.ql1, comp, p.FilterParams.WordSize, len(hits), clip(hits))
 			}
 		}
 	}
@@ -393,6 +462,12 @@ func gen(t *rapid.T) palsCase {
 		c.Indels = 0
 		c.MinIDPct = rapid.IntRange(85, 90).Draw(t, "min-id-low")
 	}
+	if !c.Self && rapid.IntRange(0, 4).Draw(t, "family") == 0 {
+		c.Family = true
+	}
+	if !c.Self && rapid.IntRange(0, 3).Draw(t, "n-runs") == 0 {
+		c.NRun = rapid.IntRange(5, 60).Draw(t, "n-run-len")
+	}
 	return c
 }
 
@@ -420,6 +495,12 @@ func classes(c palsCase) []string {
 	b := c.build()
 	if b.diffs >= 1 {
 		l = append(l, vlib.NT)
+	}
+	if c.Family && !c.Self {
+		l = append(l, "repeat-family")
+	}
+	if b.nruns > 0 {
+		l = append(l, "n-run-in-target")
 	}
 	return l
 }
@@ -470,5 +551,5 @@ func TestNearMinimumRecall(t *testing.T) {
 
 func TestPALS(t *testing.T) {
 	vlib.Run(t, vlib.Prop[palsCase]{Name: "soundness-and-recall", Checks: 200, Thorough: 9600, Gen: gen, Check: check, Classes: classes,
-		MinFrac: map[string]float64{"self": 0.1, "reverse-strand": 0.2, "indels": 0.08, "near-minimum-length": 0.08, "near-minimum-with-net-deletions": 0.08}})
+		MinFrac: map[string]float64{"self": 0.1, "reverse-strand": 0.2, "indels": 0.08, "near-minimum-length": 0.08, "near-minimum-with-net-deletions": 0.08, "repeat-family": 0.08, "n-run-in-target": 0.08}})
 }
